@@ -22,8 +22,8 @@ from collections import Counter
 HERE = os.path.dirname(os.path.abspath(__file__))
 REF = os.path.join(os.path.dirname(HERE), 'ref_symbols.json')
 
-THRESHOLD = 0.62
-MARGIN = 0.06
+THRESHOLD = 0.5
+MARGIN = 0.12
 
 _GEN = re.compile(r'::<[^<>]*(?:<[^<>]*(?:<[^<>]*>[^<>]*)*>[^<>]*)*>')
 
@@ -158,6 +158,8 @@ def score(r, n, rid, nid, resolved):
     maps tree paths to reference paths for the renames already accepted"""
     fe = _jacc(r['feats'], n['feats'])
     weight = min(1.0, (sum(r['feats'].values()) + sum(n['feats'].values())) / 16.0)
+    if weight >= 0.3 and fe < 0.3:
+        return 0.0      # bodies with enough content that share almost nothing are not the same function
     sig = 1.0 if r['sig'] == n['sig'] else (0.5 if len(r['sig']) == len(n['sig']) else 0.0)
     ncalls = Counter({resolved.get(k, k): v for k, v in n['calls'].items()})
     ca = _jacc(r['calls'], ncalls) if (r['calls'] or ncalls) else None
